@@ -212,7 +212,7 @@ static void run_case(const char* scen, const char* plan, const char* wdir) {
   if (fi_parse(plan)) { ev("BADPLAN"); fi_flush_and_exit(4); }
   uv_replace_allocator(fi_malloc, fi_realloc, fi_calloc, fi_free);
   nbase = fd_snapshot(base_fds, 256);
-  alarm(40);
+  alarm(20);
   __sanitizer_set_death_callback(on_death);
   signal(SIGABRT, on_sigabrt);
   if (strchr(scen, ':')) scen_arg = atoi(strchr(scen, ':') + 1);
